@@ -47,8 +47,13 @@ def make_field(kind, dim, rng):
     raise ValueError(kind)
 
 
-def _nshear(dim):
-    return 1 if dim == 2 else 3
+def _given(**kw):
+    return {k: v for k, v in kw.items() if v is not None}
+
+
+def _mat(E, nu, plane):
+    """None = argument omitted: documented defaults E=1, nu=0.3, plane strain"""
+    return (1.0 if E is None else E), (0.3 if nu is None else nu), ('strain' if plane is None else plane)
 
 
 def case_strain(nx, ny, nz, h, voigt, field, strict, seed):
@@ -118,13 +123,15 @@ def case_stress(nx, ny, nz, h, E, nu, plane, field, strict, seed):
     g = Grid(nx, ny, nz, h)
     dim = g.dim
     nst = dim * (dim + 1) // 2
+    mat = _given(e_modulus=E, poisson_ratio=nu, plane=plane)
+    E, nu, plane = _mat(E, nu, plane)
     mode = '3d' if dim == 3 else plane.lower()
     Gm, a = make_field(field, dim, rng)
     u = g.affine(a, Gm)
     u0 = u.copy()
     es0 = d.element_size.copy()
     s = pym.Signal('u', u)
-    m = pym.Stress(s, domain=d, e_modulus=E, poisson_ratio=nu, plane=plane)
+    m = pym.Stress(s, domain=d, **mat)
     m.response()
     sg = m.sig_out[0].state
     if np.shape(sg) != (nst, g.nel):
@@ -164,14 +171,16 @@ def case_energy(nx, ny, nz, h, E, nu, plane, field, xkind, strict, seed):
     d = pym.DomainDefinition(nx, ny, nz, *h)
     g = Grid(nx, ny, nz, h)
     dim = g.dim
+    mat = _given(e_modulus=E, poisson_ratio=nu, plane=plane)
+    E, nu, plane = _mat(E, nu, plane)
     mode = '3d' if dim == 3 else plane.lower()
     Gm, a = make_field(field, dim, rng)
     u = g.affine(a, Gm)
     x = {'pos': 0.1 + rng.random(g.nel), 'ones': np.ones(g.nel), 'zeros': np.where(rng.random(g.nel) < 0.5, 0.0, rng.random(g.nel))}[xkind]
     su = pym.Signal('u', u)
     me = pym.Strain(su, domain=d); me.response()
-    ms = pym.Stress(su, domain=d, e_modulus=E, poisson_ratio=nu, plane=plane); ms.response()
-    mk = pym.AssembleStiffness(pym.Signal('x', x), domain=d, e_modulus=E, poisson_ratio=nu, plane=plane); mk.response()
+    ms = pym.Stress(su, domain=d, **mat); ms.response()
+    mk = pym.AssembleStiffness(pym.Signal('x', x), domain=d, **mat); mk.response()
     K = mk.sig_out[0].state
     e, sg = me.sig_out[0].state, ms.sig_out[0].state
     got_el = float(np.sum(x * g.vol * np.sum(e * sg, axis=0)))
@@ -386,12 +395,16 @@ def case_thermo(nx, ny, nz, h, E, nu, alpha, plane, xkind, seed):
     d = pym.DomainDefinition(nx, ny, nz, *h)
     g = Grid(nx, ny, nz, h)
     dim = g.dim
+    mat = _given(e_modulus=E, poisson_ratio=nu, plane=plane)
+    E, nu, plane = _mat(E, nu, plane)
+    matt = dict(mat, **_given(alpha=alpha))
+    alpha = 1e-6 if alpha is None else alpha                       # documented default
     mode = '3d' if dim == 3 else plane.lower()
     xt = {'pos': 0.1 + rng.random(g.nel), 'ones': np.ones(g.nel), 'neg': rng.standard_normal(g.nel), 'zeros': np.where(rng.random(g.nel) < 0.5, 0.0, rng.random(g.nel))}[xkind]
     xt0 = xt.copy()
     es0 = d.element_size.copy()
     s = pym.Signal('xt', xt)
-    m = pym.ThermoMechanical(s, domain=d, e_modulus=E, poisson_ratio=nu, alpha=alpha, plane=plane)
+    m = pym.ThermoMechanical(s, domain=d, **matt)
     m.response()
     f = m.sig_out[0].state
     n = dim * g.nnodes
@@ -418,7 +431,7 @@ def case_thermo(nx, ny, nz, h, E, nu, alpha, plane, xkind, seed):
         if not abs(float(r_ @ f)) <= 1e-11 * sc * n * L:
             bad.append((f'thermal load is self-equilibrated: orthogonal to rigid-body motion #{k}', float(r_ @ f), 0.0, None))
     if mode in ('stress', '3d'):
-        mk = pym.AssembleStiffness(pym.Signal('x', xt0.copy()), domain=d, e_modulus=E, poisson_ratio=nu, plane=plane)
+        mk = pym.AssembleStiffness(pym.Signal('x', xt0.copy()), domain=d, **mat)
         mk.response()
         K = mk.sig_out[0].state
         uth = alpha * g.pos.reshape(-1)            # free expansion field alpha * position (unit temperature, scaled per element through x)
